@@ -1057,7 +1057,9 @@ def parse_primary_expr(lexer, unary_minus=False):
             result = parse_block(lexer)
         elif token.value == "[" and token.type == "interpunction":
             result = parse_list_literal(lexer, token)
-            if lexer.peekn(1, "=", "operator"):
+            if isinstance(result, NodeList) and lexer.peekn(
+                1, "=", "operator"
+            ):
                 identifiers = []
                 for item in result.items:
                     if not isinstance(item, NodeIdentifier):
